@@ -83,7 +83,7 @@ def judge(ctx, a, b, box, value, inv):
 
 def setup(ctx):
     from gaddlemaps.components import Residue
-    _cov.watch(Residue.__dict__['distance_to'])
+    _cov.watch_attr(Residue, 'distance_to')
     _cov.start()
     install_contract(ctx)
 
